@@ -27,6 +27,14 @@ def backend(builtin):
         constants.installed["numpy-quaternion"] = old
 
 
+@contextlib.contextmanager
+def silent():
+    """swallow what dask's ProgressBar prints"""
+    import io
+    with contextlib.redirect_stdout(io.StringIO()), contextlib.redirect_stderr(io.StringIO()):
+        yield
+
+
 def Q(a):
     from orix.quaternion import Quaternion
     return Quaternion(a)
@@ -99,6 +107,8 @@ def strategies_check(ctx, c, outs):
                         out["outer"] = qa.outer(qb).data
                         for ch in c["chunks"]:
                             out[f"outer_lazy{ch}"] = qa.outer(qb, lazy=True, chunk_size=ch, progressbar=False).data
+                        with silent():          # the branch that stores under dask's progress bar
+                            out[f"outer_lazy{c['chunks'][0]}_bar"] = qa.outer(qb, lazy=True, chunk_size=c["chunks"][0], progressbar=True).data
                         if sa == sb:
                             out["mul"] = (qa * qb).data
                             out["mul_elementwise"] = np.stack([(qa[i] * qb[i]).data.reshape(4) for i in np.ndindex(*sa)]
@@ -112,6 +122,8 @@ def strategies_check(ctx, c, outs):
                         if not c.get("nonunit") or c.get("nonunit_lazy"):
                             for ch in c["chunks"]:
                                 out[f"outer_lazy{ch}"] = qa.outer(vb, lazy=True, chunk_size=ch, progressbar=False).data
+                            with silent():
+                                out[f"outer_lazy{c['chunks'][0]}_bar"] = qa.outer(vb, lazy=True, chunk_size=c["chunks"][0], progressbar=True).data
                         if sa == sb:
                             out["qv_mul"] = (qa * vb).data
                             out["qv_mul_elementwise"] = np.stack([(qa[i] * vb[i]).data.reshape(3) for i in np.ndindex(*sa)]
@@ -119,8 +131,10 @@ def strategies_check(ctx, c, outs):
                         out["dot_outer"] = vb.dot_outer(vb)
                         for ch in c["chunks"][:2]:
                             out[f"dot_outer_lazy{ch}"] = vb.dot_outer(vb, lazy=True, chunk_size=ch, progressbar=False)
+                        with silent():
+                            out[f"dot_outer_lazy{c['chunks'][0]}_bar"] = vb.dot_outer(vb, lazy=True, chunk_size=c["chunks"][0], progressbar=True)
                 for name, val in out.items():
-                    base = name.replace("_elementwise", "")
+                    base = name.replace("_elementwise", "").replace("_bar", "")
                     for ch in c["chunks"]:
                         base = base.replace(f"_lazy{ch}", "")
                     key = base
@@ -166,6 +180,8 @@ def rotation_strategies_check(ctx, c, outs):
                         out["outer"] = R.outer(vb).data
                         for ch in c["chunks"]:
                             out[f"outer_lazy{ch}"] = R.outer(vb, lazy=True, chunk_size=ch, progressbar=False).data
+                        with silent():
+                            out[f"outer_lazy{c['chunks'][0]}_bar"] = R.outer(vb, lazy=True, chunk_size=c["chunks"][0], progressbar=True).data
                         out["outer_elementwise"] = np.stack([(R[i] * vb[j]).data.reshape(3) for i in np.ndindex(*sa)
                                                              for j in np.ndindex(*sb)]).reshape(sa + sb + (3,))
                         if sa == sb:
@@ -190,7 +206,7 @@ def rotation_strategies_check(ctx, c, outs):
                             out["outer_improper_elementwise"] = np.array([float(np.asarray(e.improper).reshape(-1)[0]) for e in el]
                                                                          ).reshape(sa + sb)
                 for name, val in out.items():
-                    key = name.replace("_elementwise", "")
+                    key = name.replace("_elementwise", "").replace("_bar", "")
                     for ch in c["chunks"]:
                         key = key.replace(f"_lazy{ch}", "")
                     if key not in ref:
@@ -229,6 +245,12 @@ def symmetry_check(ctx, c, outs):
             if np.abs(lz - eager).max() > 2e-6:
                 return (f"angle_with_outer lazy(chunk={ch}) differs from eager by {np.abs(lz - eager).max():.3e} "
                         f"({G1.name}, {G2.name}; shapes {s1}, {s2})")
+            if ch == c["chunks"][0]:
+                with silent():
+                    lzb = O1.angle_with_outer(O2, lazy=True, chunk_size=ch, progressbar=True)
+                if lzb.shape != eager.shape or np.abs(lzb - eager).max() > 2e-6:
+                    return (f"angle_with_outer lazy(chunk={ch}, progressbar=True) differs from eager ({G1.name}, {G2.name}; "
+                            f"shapes {s1}, {s2})")
             lzd = O1.angle_with_outer(O2, lazy=True, chunk_size=ch, progressbar=False, degrees=True)
             if lzd.shape != eager.shape or np.abs(lzd - np.rad2deg(eager)).max() > 2e-4:
                 return (f"angle_with_outer(degrees=True) lazy(chunk={ch}) = {np.asarray(lzd).tolist()} but eager (radians) "
